@@ -138,7 +138,21 @@ def run(ctx):
         prev_range = False
         for k_ in range(items):
             r_ = rng.random()
-            if r_ < 0.5:
+            if r_ < 0.2:
+                # a POSIX class, possibly right after `x-` (a class cannot end a range: that hyphen is a member), possibly followed by `-`
+                cls, cset = rng.choice([('digit', '0123456789'), ('upper', 'ABCDEFGHIJKLMNOPQRSTUVWXYZ'), ('xdigit', '0123456789abcdefABCDEF')])
+                if rng.random() < 0.5:
+                    c0 = rng.choice('Aa0+z_.')
+                    text += wr(c0) + '-'
+                    members |= {c0, '-'}
+                text += '[:%s:]' % cls
+                members |= set(cset)
+                if rng.random() < 0.3:
+                    text += '-'
+                    members.add('-')
+                prev_range = False
+                continue
+            if r_ < 0.6:
                 lo, hi = sorted((rng.choice(pool), rng.choice(pool)))
                 if lo == '/' or hi == '/':
                     continue
